@@ -18,7 +18,8 @@ for b in re.split(r'^### ', log, flags=re.M)[1:]:
         m = re.search(r'witness="([^"]*)"', line)
         if m and cur:
             det.setdefault(cur, []).append(m.group(1))
-    assert det, sid + ' not detected'
+    nd = strengthen.get(sid, '').startswith('NOT-DETECTED:')
+    assert det or nd, sid + ' not detected'
     mp = '/verif/seeded/%s/meta.json' % sid
     m = json.load(open(mp))
     m['seed_id'] = sid
@@ -27,14 +28,18 @@ for b in re.split(r'^### ', log, flags=re.M)[1:]:
     m['checks_run'] = 'scripts/try_seed.sh seeded/%s/patch.diff %s (quick tier, VERIF_SEED=1)' % (sid, ' '.join(det))
     m['detected_by'] = {k: ', '.join(v[:4]) for k, v in det.items()}
     m['first_run'] = 'missed' if sid in strengthen else 'caught'
-    if sid in strengthen:
+    if nd:
+        m['not_detected'] = strengthen[sid][len('NOT-DETECTED:'):].strip()
+    elif sid in strengthen:
         m['strengthened'] = strengthen[sid]
     json.dump(m, open(mp, 'w'), indent=1)
     what = m['summary']
     e = {'breaks': sid[:3], 'what': what[:220].rsplit(' ', 1)[0] + ('…' if len(what) > 220 else ''),
          'caught_by': {k: ', '.join(x if len(x) < 90 else x[:88] + '…' for x in v[:2]) + (' …' if len(v) > 2 else '') for k, v in det.items()},
          'first_run': m['first_run']}
-    if sid in strengthen:
+    if nd:
+        e['not_detected'] = strengthen[sid][len('NOT-DETECTED:'):].strip()
+    elif sid in strengthen:
         e['strengthened'] = strengthen[sid]
     catch[sid] = e
 json.dump(catch, open('/verif/seeded/catch.json', 'w'), indent=1)
